@@ -132,6 +132,11 @@ static void hybrid_case(const Pattern &p) {   // scalar matrix with 2x2 block st
     });
 }
 
+// hybrid backend built from an ARBITRARY scalar pattern (scalar rows of one block row reach different block columns: staggered patterns)
+static void hybrid_ragged_case(const Pattern &ps) { hx::run_case("hybrid-ragged/"+ps.name, [&]() { SCrs S=hx::symbolic_matrix(ps,"a",false); auto Sm=hx::to_amgcl(S); typedef be::builtin_hybrid<B2,ptrdiff_t,ptrdiff_t> HB; auto Hm=HB::copy_matrix(Sm,HB::params());
+    std::vector<scalar> x=hx::sym_vector("x",ps.m), y=hx::sym_vector("y",ps.n); scalar alpha=var("alpha",0.75), beta=var("beta",-1.25); std::vector<scalar> Sx=hx::dense_mv(S,x);
+    NV X=hx::to_numa(x), Y=hx::to_numa(y); be::spmv(alpha,*Hm,X,beta,Y); std::vector<scalar> ref; for (int i=0;i<ps.n;++i) ref.push_back(alpha*Sx[i]+beta*y[i]); hx::prove_eq_vec("hybrid spmv on a staggered scalar pattern = scalar spmv",hx::to_vec(Y),ref); }); }
+
 int main(int argc, char **argv) {
     hx::parse_args(argc,argv);
     hx::encodes("amgcl::backend::spmv_impl / residual_impl (backend/detail/matrix_ops.hpp) on crs<scalar>, crs<static_matrix<scalar,2,2>>, crs<complex<scalar>>");
@@ -152,5 +157,6 @@ int main(int argc, char **argv) {
     for (auto sh : std::vector<std::pair<int,int>>{{1,1},{2,2},{2,3},{3,3}}) { int bits=sh.first*sh.second; for (uint64_t mask=0; mask<(1ull<<bits); ++mask) if (T || bits<=4 || rng.below(bits>6?24:4)==0) complex_case(hx::mask_pattern(sh.first,sh.second,mask,false)); }
     for (int k=0;k<(T?30:8);++k) { int n=1+rng.below(6), m=1+rng.below(6), bs=2+rng.below(2); blockcrs_case(hx::random_pattern(n,m,rng,1+rng.below(3),false),bs); }
     for (int k=0;k<(T?12:4);++k) { int n=1+rng.below(3), m=n; hybrid_case(hx::random_pattern(n,m,rng,1+rng.below(2),true)); }
+    for (int k=0;k<(T?60:16);++k) hybrid_ragged_case(hx::mask_pattern(2+2*(k%2),6+2*(k%3==0),rng.next()&((1ull<<40)-1),false));
     return hx::finish();
 }
